@@ -97,7 +97,7 @@ HIST_INV = "TypeOK BadKeepsGood BadNeverPublishes RegIsLastGood NoSpin NoSpinHis
 # the universes of the real-source histories (see CertStore_MC!GenSSpec and harness/cert/c11_sources_test.go)
 SOURCES = (
     # path source, every content has the same file names: files that are listed but cannot be read abort the load
-    ("path", "path-unreadable", '{"A", "B"}', '{"pem", "unread-c", "unread-p", "foreign", "big"}', "{}"),
+    ("path", "path-unreadable", '{"A", "B"}', '{"pem", "unread-c", "unread-p", "foreign"}', "{}"),
     # path source, a certificate deleted on purpose (As) is a legitimate smaller set; a missing key half is not
     ("path", "path-shrink", '{"A", "As", "B"}', '{"pem", "nokey", "foreign"}', "{}"),
     # http source: broken files, files the server does not have / fails on, and an unavailable listing
